@@ -92,6 +92,11 @@ theorem sites_in_range : ∀ s ∈ Gen.sites,
     (s.2.2.1 = "bits" → 1 ≤ s.2.2.2.1 ∧ s.2.2.2.1 ≤ s.2.2.2.2 ∧ s.2.2.2.2 ≤ 112)
     ∧ (s.2.2.1 = "nibble" → s.2.2.2.2 < 28) := by decide +kernel
 
+/-- ... spans at most 32 bits, so that the `u32` arithmetic of `range_value` (whose `<<` silently drops bits shifted past
+    bit 31) loses nothing: this is the hypothesis of `Bridge.range_value_eq`, under which the code's wrapping computation
+    (regenerated from the source into `Generated/TransBits.lean`) *is* the model's unbounded one ... -/
+theorem sites_fit_u32 : ∀ s ∈ Gen.fieldSites, 1 ≤ s.2.2.1 ∧ s.2.2.2 < s.2.2.1 + 32 := by decide +kernel
+
 /-- ... and inside a 56-bit frame if the function can see one -/
 theorem short_sites_in_range : ∀ s ∈ Gen.sites, s.2.1 ∈ shortFns →
     (s.2.2.1 = "bits" → s.2.2.2.2 ≤ 56) ∧ (s.2.2.1 = "nibble" → s.2.2.2.2 < 14) := by decide +kernel
